@@ -106,6 +106,12 @@ theorem convFlatLink_vjp {kh kw : ℕ} (q : Conv ℝ × Act × V (I4 c c kh kw))
   have h12 := IsVJP.comp h1 h2
   exact h12
 
+/-- the position-indexed encoding of a stretch that starts with a flattened convolution: position 0 holds a
+    `c × h × w` tensor, every later position a flat vector -/
+noncomputable def emFS (c h w : ℕ) : Nat → Enc (iVec (c * h * w))
+  | 0 => eVolFlat c h w
+  | _ + 1 => eVec (c * h * w)
+
 /-! ### reading `SkipDag.P` -/
 
 theorem P_of_none {ι : Type} [Fintype ι] (N : SkipDag.Net ι) (i : Nat) (x : V ι) (h : N.S i = none) :
